@@ -84,6 +84,30 @@ pub mod engine;
 pub mod executor;
 pub mod program;
 pub mod query;
+#[cfg(qbice_verif)]
+pub mod verif;
+
+/// Emits a verification event (no-op unless built with `--cfg qbice_verif`).
+#[allow(unused_macros)]
+macro_rules! verif_point {
+    ($label:expr, $id:expr, $n:expr) => {
+        #[cfg(qbice_verif)]
+        $crate::verif::emit($label, $id, $n);
+    };
+}
+#[allow(unused_imports)]
+pub(crate) use verif_point;
+
+/// A harness-controlled await point (no-op unless built with `--cfg qbice_verif`).
+#[allow(unused_macros)]
+macro_rules! verif_pause {
+    ($label:expr, $id:expr) => {
+        #[cfg(qbice_verif)]
+        $crate::verif::pause($label, $id).await;
+    };
+}
+#[allow(unused_imports)]
+pub(crate) use verif_pause;
 
 pub use config::Config;
 #[cfg(feature = "default-config")]
